@@ -269,6 +269,18 @@ fn build_tera(cfg: Option<&J>) -> Result<Tera, String> {
                 .collect::<Vec<_>>(),
         );
     }
+    if cfg.get("escape").and_then(|x| x.as_str()) == Some("brackets") {
+        t.set_escape_fn(|input: &str, out: &mut dyn Write| {
+            for c in input.chars() {
+                match c {
+                    '<' => out.write_all(b"[lt]")?,
+                    '&' => out.write_all(b"[amp]")?,
+                    _ => out.write_all(c.to_string().as_bytes())?,
+                }
+            }
+            Ok(())
+        });
+    }
     if let Some(g) = cfg.get("gctx") {
         for (k, v) in g.as_object().unwrap() {
             t.global_context().insert_value(k.clone(), to_val(v));
@@ -633,9 +645,8 @@ fn main() {
         }
         tera::verif::set_optimize(true);
         writeln!(out, "{}", json!({"id": id, "r": results})).unwrap();
-        if job.get("may_abort").is_some() {
-            out.flush().unwrap();
-        }
+        // flushed per job so that a crash (abort, stack overflow) can be attributed to the job in progress
+        out.flush().unwrap();
     }
     out.flush().unwrap();
     if let Some(f) = tout.file.as_mut() {
